@@ -149,7 +149,7 @@ def main():
                 "evidence_file": f"/verif/evidence/{p}.json",
                 "replay_cmd_template": f"/verif/bin/s2lint -prop {p} -tier thorough -v   # re-derives the obligations listed in {{path}}",
                 "engine": "s2lint",
-                "level_claimed": {"category": "other", "text": c["text"] + EXTRA.get(p, ""), "design_ref": c["design"] + ", sections 9.1-9.2"},
+                "level_claimed": {"category": "other", "text": c["text"] + EXTRA.get(p, ""), "design_ref": c["design"] + ", sections 9.1-9.4"},
                 "level_note": c["note"],
                 "technique": c["technique"],
             })
